@@ -40,6 +40,14 @@ def program(version, text, kinds):
     if 'errors' in kinds:
         iss = [(i.code, i.message, i.start_pos, i.end_pos) for i in g.iter_errors(m)]
         out.append(['errors|%s|%s' % (version, digest(text)), digest(repr(iss))])
+    if 'errors' in kinds:
+        # a strict parse from the other start symbol through the same shared grammar object
+        expr = 'a + b, (c if d else e)\n'
+        try:
+            e = g.parse(expr, error_recovery=False, start_symbol='eval_input')
+            out.append(['eval|%s|%s' % (version, digest(text)), digest(e.dump(indent=None))])
+        except Exception as ex:  # noqa
+            out.append(['eval|%s|%s' % (version, digest(text)), digest('raised:' + type(ex).__name__)])
     if 'tokens' in kinds:
         from parso.python.tokenize import tokenize
         from parso.utils import parse_version_string
@@ -128,7 +136,7 @@ def run_once(tid, progs, schedule, cold, fresh, fp_warm, rng):
         for key, d in (res or []):
             events.append({'thread': t, 'key': key, 'digest': interned.setdefault(d, len(interned) + 1),
                            'fresh': interned.setdefault(fresh.get(key, 'missing:' + key), len(interned) + 1)})
-    return {'id': tid, 'events': events, 'expected': 3 * len(progs), 'warm': not cold,
+    return {'id': tid, 'events': events, 'expected': 4 * len(progs), 'warm': not cold,
             'fpBefore': interned.setdefault(fp0, len(interned) + 1), 'fpAfter': interned.setdefault(fp1, len(interned) + 1),
             'fpWarm': interned.setdefault(fp_warm, len(interned) + 1),
             'raised': ';'.join(['%s:%s' % kv for kv in sorted(r.errors.items(), key=str)] + run_once.errors[:2]),
